@@ -82,7 +82,7 @@ func (h *Handler) spoofLoop(addr packet.Addr) {
 	nTimes := 0
 	for {
 		h.arpMutex.Lock()
-		targetAddr, hunting := h.findHuntByIP(addr.IP)
+		targetAddr, hunting := h.huntList[string(addr.MAC)] // by MAC (the key of the list): another hunted MAC may share the IP
 		closed := h.closed
 		h.arpMutex.Unlock()
 
